@@ -49,8 +49,8 @@ def run(ctx):
         ctx.bad("C20/D1", "anchors", "PaeV1::pae_pack / pae_unpack not found (failing closed)")
         return
     # ---------------- D1 pack
-    pb = body_of(fx, pack["key"])
-    ctx.touch_body(pb)
+    POLICY = ("private-except", frozenset(["models::envelope::pae_v1::consume_load_len"]))
+    pb = ctx.region(None, policy=POLICY, key=pack["key"], ps=True)
     args = []
     for i, t in pb.calls():
         if (callee_name(t) or "").startswith("core::fmt::rt::Argument::new_"):
@@ -92,10 +92,22 @@ def run(ctx):
             header_from_format = any("fmt::format" in lf.via or "format" in " ".join(lf.via) for lf in hl) or any(lf.kind == "param" and lf.data == 1 for lf in hl)
             okc = payload_direct and header_from_format
             detail = "concat([header, payload]): payload operand is the parameter itself: %s; first operand is the formatted header: %s" % (payload_direct, header_from_format)
+    if not okc:
+        # header.into_bytes() followed by exactly one extend_from_slice(payload)
+        rl2 = pb.trace({"l": 0, "p": []}, (), None, None, True)
+        base = [l for l in rl2 if l.kind != "mut"]
+        muts = [l for l in rl2 if l.kind == "mut"]
+        if len(base) == 1 and base[0].kind == "call" and callee_name(base[0].data[1]) in ("std::string::String::into_bytes",) and len(muts) == 1:
+            mt = muts[0].data[1]
+            hl = pb.trace(base[0].data[1]["args"][0], (), None, FMT)
+            header_from_format = any("fmt::format" in lf.via or "format" in " ".join(lf.via) for lf in hl) or any(lf.kind == "param" and lf.data == 1 for lf in hl)
+            payload_direct = callee_name(mt) in ("std::vec::Vec::extend_from_slice", "std::iter::Extend::extend") and muts[0].data[2] == 0 and \
+                root_ids(pb, mt["args"][1]) == frozenset([("param", 2, ())]) and all(not lf.via for lf in pb.trace(mt["args"][1]))
+            okc = header_from_format and payload_direct
+            detail = "header.into_bytes() extended once by the payload parameter itself: %s; the vector starts as the formatted header: %s" % (payload_direct, header_from_format)
     ctx.inst("C20/D1", "payload appended verbatim after the header", okc, detail, pack["at"])
     # ---------------- D2 unpack
-    ub = body_of(fx, unpack["key"])
-    ctx.touch_body(ub)
+    ub = ctx.region(None, policy=POLICY, key=unpack["key"], ps=True)
     cons_calls = ub.calls_named("models::envelope::pae_v1::consume_load_len")
     ctx.inst("C20/D2", "two length fields are parsed", len(cons_calls) == 2, "%d call(s) of the length parser" % len(cons_calls), unpack["at"])
     if len(cons_calls) != 2:
@@ -126,7 +138,8 @@ def run(ctx):
         if gt is None:
             continue
         kind, fl = range_of(gt)
-        okr = kind == "Range" and const_int(ub, fl.get("start")) == 0 and is_cons(fl.get("end"), ci, F0) and is_cons(gt["args"][0], ci, F1)
+        start0 = (kind == "Range" and const_int(ub, fl.get("start")) == 0) or kind == "RangeTo"
+        okr = start0 and is_cons(fl.get("end"), ci, F0) and is_cons(gt["args"][0], ci, F1)
         ctx.inst("C20/D2", "%s = rest[0..len] of the same length field" % what, okr,
                  "get(%s, %s{start: %s, end: %s})" % ({str(x) for x in root_ids(ub, gt["args"][0])}, kind,
                                                        const_int(ub, fl.get("start")) if fl.get("start") else None,
@@ -141,7 +154,12 @@ def run(ctx):
             kind, fl = range_of(lf.data[1])
             st = fl.get("start")
             if kind == "RangeFrom" and st is not None and is_cons(lf.data[1]["args"][0], c1, F1):
-                ok2 = True
+                # start = n1 + 1 (checked)
+                sl = ub.trace(st, (), lambda tt: callee_name(tt) == "core::num::checked_add")
+                add_ok = bool(sl) and all(l.kind == "call" and callee_name(l.data[1]) == "core::num::checked_add" and l.path == (SOME, F0) and
+                                          is_cons(l.data[1]["args"][0], c1, F0) and const_int(ub, l.data[1]["args"][1]) == 1 for l in sl)
+                ok2 = add_ok
+                detail = "second length field parsed from rest1.get(start..), start = checked_add(n1, 1): %s" % add_ok
     if not ok2:
         for i, t in ub.calls_named("std::option::Option::and_then"):
             ck = None
@@ -206,9 +224,15 @@ def run(ctx):
         ctx.bad("C20/D2", "decoder strips the prefix the encoder writes", "expected one strip_prefix call, found %d" % len(sp))
     # ---------------- D3
     n = 0
-    for f in (unpack, cons) + tuple(fx.fns[k] for k in fx.closures_of.get(unpack["key"], []) + (fx.closures_of.get(cons["key"], []) if cons else [])):
-        if f is None:
-            continue
+    dec_keys = [unpack["key"]] + ([cons["key"]] if cons else [])
+    for blk in ub.blocks:      # private helpers of the decoder (inlined into its region)
+        if blk.get("origin_key") and blk["origin_key"] not in dec_keys:
+            dec_keys.append(blk["origin_key"])
+    for k in list(dec_keys):
+        for ck in fx.closures_of.get(k, []):
+            if ck not in dec_keys:
+                dec_keys.append(ck)
+    for f in [fx.fns[k] for k in dec_keys]:
         b = body_of(fx, f["key"])
         for (bb, t, kind, descr) in C14.sites_of(f):
             if bb not in b.reach:
